@@ -832,10 +832,9 @@ def driver_runs(tier, seed):
             tenum = [i for i in items if i["kind"] == "terminal"][0]["name"]
             strs = token_strings(G, rng, tier)
             recs.append({"label": label, "items": items, "text": text, "G": G, "emitted": emitted, "tenum": tenum, "strings": strs})
-        # zero-terminal grammars do not compile (known finding of C05); they get no compiled run.  Neither do modules
-        # of more than 250 kB (hundreds of terminals × hundreds of states: many minutes of rustc each); their tables
-        # are compared in C04/C17 and validated by validB all the same.
-        comp = [r for r in recs if r["G"]["terminals"] and len(r["emitted"]) <= 250_000]
+        # modules of more than 250 kB (hundreds of terminals × hundreds of states: many minutes of rustc each) get no
+        # compiled run; their tables are compared in C04/C17 and validated by validB all the same.
+        comp = [r for r in recs if len(r["emitted"]) <= 250_000]
         grammars = []
         for r in comp:
             idx = {t: i for i, t in enumerate(r["G"]["terminals"])}
@@ -1368,6 +1367,10 @@ def run_C13(rep, tier, rng):
             return head + "<" + ", ".join(args) + ">"
         if t == "()":
             return rng.choice(["Vec<()>", "usize"])
+        if "<" in t:
+            # a generic type that was not varied inside: wrap it or change its callee (nothing may follow the `>`)
+            head, body = t.split("<", 1)
+            return rng.choice([rng.choice(["Vec", "Option", "crate::G"]) + "<" + t + ">", head + "x<" + body])
         k = rng.random()
         if k < 0.4:
             return t + "::" + rng.choice(["D", "c", "Q"])                 # longer path
